@@ -1,6 +1,7 @@
 """C10 — hit order and scores follow the sort spec and BM25 (partial: the comparator tables and parameter provenance)."""
 from sa import names as N
 from sa import boolpaths
+import re
 from sa.prog import Site, Slice, TERM, callee_of, op_local, op_place, op_const, place_fields
 from sa.rules.common import is_test_or_bench
 
@@ -92,7 +93,7 @@ def r10b(ctx, P):
         return
     n = 0
     for name in ("compare_ord", "compare_f32", "compare_f64"):
-        f = P.fn(SORT + name)
+        f = P.inlined(SORT + name, depth=1, small=30)     # a shared `apply_order(natural, order)` helper is read in place
         if not ctx.anchor(rid, f, name):
             continue
         ctx.saw(f)
@@ -145,6 +146,89 @@ def r10b(ctx, P):
     ctx.floor(rid, n, 3, "direction helpers")
 
 
+def _r10c_chain_form(ctx, P, rid, f):
+    sl = Slice(f, through_all_calls=True)
+    ret = [d for d in f.defs().get(0, [])]
+    if len(ret) != 1 or ret[0]["k"] != "call" or not callee_of(ret[0]["t"]).endswith(("Option::<T>::unwrap_or_else", "Option::<T>::map_or_else")):
+        return None
+    t = ret[0]["t"]
+
+    def closure_of(o):
+        for y in sl.sources(o):
+            if y[0] == "agg" and y[3].get("closure") and P.fn(y[3]["closure"]) is not None:
+                return P.fn(y[3]["closure"])
+        return None
+    src = sl.sources(t["args"][0])
+    finds = [x[2] for x in src if x[0] == "call" and callee_of(x[2]).endswith(("Iterator::find", "Iterator::find_map"))]
+    maps = [x[2] for x in src if x[0] == "call" and callee_of(x[2]).endswith("Iterator::map")]
+    zips = [x[2] for x in src if x[0] == "call" and callee_of(x[2]).endswith("Iterator::zip")]
+    celse = closure_of(t["args"][1])
+    if not (finds and maps and zips and celse is not None):
+        return None
+    ctx.floor(rid, 1, 1, "then_with producing the return value of SortKey::cmp")
+    # (1) tie-break in the fallback closure
+    ok1 = ok2 = False
+    ctx.saw(celse)
+    es = Slice(celse, through_all_calls=True)
+    for b, tt in celse.calls():
+        if callee_of(tt).endswith("Ordering::then_with") and tt["dst"]["l"] == 0:
+            for x in Slice(celse).sources(tt["args"][0]):
+                if x[0] == "call" and callee_of(x[2]).endswith("::cmp"):
+                    f0 = [z[2] for z in es.sources(x[2]["args"][0]) if z[0] == "field"]
+                    f1 = [z[2] for z in es.sources(x[2]["args"][1]) if z[0] == "field"]
+                    if any("segment_ord" in z and any("self" in q for q in z) for z in f0) and any("segment_ord" in z and any("other" in q for q in z) for z in f1):
+                        ok1 = True
+            for y in es.sources(tt["args"][1]):
+                if y[0] == "agg" and y[3].get("closure") and P.fn(y[3]["closure"]) is not None:
+                    g = P.fn(y[3]["closure"])
+                    gsl = Slice(g, through_all_calls=True)
+                    for gb, gt in g.calls():
+                        if callee_of(gt).endswith("::cmp") and gt["dst"]["l"] == 0:
+                            f0 = [z[2] for z in gsl.sources(gt["args"][0]) if z[0] == "field"]
+                            f1 = [z[2] for z in gsl.sources(gt["args"][1]) if z[0] == "field"]
+                            if any("doc_id" in z and any("self" in q for q in z) for z in f0) and any("doc_id" in z and any("other" in q for q in z) for z in f1):
+                                ok2 = True
+    ctx.ob(rid, "%s:SortKey::cmp:tie-break" % rid, ok1 and ok2,
+           "ties of all sort parts are broken by segment_ord and then doc_id, compared as (self, other)" if ok1 and ok2 else
+           "SortKey::cmp does not break ties by (self.segment_ord vs other.segment_ord) then (self.doc_id vs other.doc_id): %s" % (
+               "segment comparison missing or reversed" if not ok1 else "document comparison missing or reversed"), "%s:%s" % (f.file, f.line))
+    # (2) parts first: zip(self.parts, other.parts), map = SortKeyPart::cmp(pair.0, pair.1), find = first non-equal
+    z = zips[0]
+    z0 = {(y[1], tuple(y[2])) for y in sl.sources(z["args"][0]) if y[0] == "field"}
+    z1 = {(y[1], tuple(y[2])) for y in sl.sources(z["args"][1]) if y[0] == "field"}
+    zip_ok = any(l == 1 and "parts" in fl for l, fl in z0) and any(l == 2 and "parts" in fl for l, fl in z1) and \
+        not any(l == 2 for l, fl in z0) and not any(l == 1 for l, fl in z1)
+    cm = closure_of(maps[0]["args"][1])
+    map_ok = False
+    if cm is not None:
+        ctx.saw(cm)
+        for b, tt in cm.calls():
+            if callee_of(tt) == SORT + "SortKeyPart::cmp" and tt["dst"]["l"] == 0:
+                e0, e1 = _tuple_elem(cm, tt["args"][0]), _tuple_elem(cm, tt["args"][1])
+                map_ok = e0 is not None and e1 is not None and e0[0] == e1[0] and e0[1] == 0 and e1[1] == 1
+    cf = closure_of(finds[0]["args"][1])
+    find_ok = False
+    if cf is not None:
+        ctx.saw(cf)
+        # returns true exactly when the ordering is not Equal: `!o.is_eq()`, `o.is_ne()`, `*o != Equal`
+        calls = [callee_of(tt) for b, tt in cf.calls()]
+        neg = any(st["k"] == "assign" and st["rv"]["k"] == "unop" and st["rv"].get("op") == "Not" and st["dst"]["l"] == 0 for b, i, st in cf.stmts())
+        if any(c.endswith("Ordering::is_eq") for c in calls) and neg and len(calls) == 1:
+            find_ok = True
+        elif any(c.endswith("Ordering::is_ne") for c in calls) and not neg and len(calls) == 1:
+            find_ok = True
+        elif any(re.search(r"PartialEq(<[^>]*>)?>?::ne$", c) for c in calls) and len(calls) == 1:
+            find_ok = any((op_const(a) or {}).get("txt", "").endswith("Equal") or "Equal" in str(op_const(a) or "") for b, tt in cf.calls() for a in tt["args"]) or \
+                any(st["k"] == "assign" and st["rv"]["k"] == "agg" and st["rv"].get("variant") == "Equal" for b, i, st in cf.stmts())
+    ok3 = zip_ok and map_ok and find_ok
+    ctx.ob(rid, "%s:SortKey::cmp:parts-first" % rid, ok3,
+           "the first non-equal SortKeyPart::cmp(self part, other part) is returned as it is" if ok3 else
+           "SortKey::cmp (iterator form): %s" % ("the zip is not (self.parts, other.parts)" if not zip_ok else
+                                                  "the mapped comparison is not SortKeyPart::cmp(pair.0, pair.1)" if not map_ok else
+                                                  "the element picked is not the first non-equal comparison"), "%s:%s" % (f.file, f.line))
+    return True
+
+
 def r10c(ctx, P):
     rid = "R10.c"
     ctx.rule(rid, "ORDER (tie-break): in <SortKey as Ord>::cmp a non-equal part comparison is returned as it is, and the value returned "
@@ -157,6 +241,12 @@ def r10c(ctx, P):
     sl = Slice(f, through_all_calls=True)
     sl0 = Slice(f)
     thens = [(b, t) for b, t in f.calls() if callee_of(t).endswith("Ordering::then_with") and t["dst"]["l"] == 0]
+    chain = None
+    if not thens:
+        # iterator form: zip(self.parts, other.parts).map(|(l, r)| l.cmp(r)).find(|o| o != Equal).unwrap_or_else(|| tie-break)
+        chain = _r10c_chain_form(ctx, P, rid, f)
+        if chain is not None:
+            return
     ctx.floor(rid, len(thens), 1, "then_with producing the return value of SortKey::cmp")
     for b, t in thens:
         first = [x for x in sl0.sources(t["args"][0]) if x[0] == "call" and callee_of(x[2]).endswith("::cmp")]
